@@ -138,9 +138,9 @@ func isRemote(ul flowcontrols.UpstreamLimiter, fc flowcontrol.FlowControl) bool 
 
 // TestPropAllocateMaxInflight: global-allocate, max-in-flight.
 func TestPropAllocateMaxInflight(t *testing.T) {
-	sub := stats.NewSub("allocate-max-in-flight", "rapid state machine on the real UpstreamLimiter in remote mode (global-allocate, max-in-flight, local L <= global G <= 10) with a scripted limiter server: ops readiness up/down, client unavailable, reconcile with reply quota in {0,1,-1,-5,MinInt32,MaxInt32, G..G+3, 1..G} or an error, acquire, release, drain+probe; oracle: admitted-and-unreleased <= G at every admission (G+L for histories matching the listed open finding: requests admitted by the local and by the remote limiter in flight together); while the server is unknown / not ready / has never answered exactly L requests are admitted from empty; after a reply Q in [1,G] exactly Q, after Q > G at most G, after Q <= 0 at most G; non-trivial = history has a hostile quota (<=0 or >G) or a readiness flip with requests in flight; distinct by FNV-64 of the op trace")
+	sub := stats.NewSub("allocate-max-in-flight", "rapid state machine on the real UpstreamLimiter in remote mode (global-allocate, max-in-flight, local L <= global G <= 10) with a scripted limiter server: ops readiness up/down, client unavailable, schema update (new local/global limits; the new global limit is demanded from the next applied answer on, also if the server repeats its previous quota), reconcile with reply quota in {0,1,-1,-5,MinInt32,MaxInt32, G..G+3, 1..G} or an error, acquire, release, drain+probe; oracle: admitted-and-unreleased <= G at every admission (G+L for histories matching the listed open finding: requests admitted by the local and by the remote limiter in flight together); while the server is unknown / not ready / has never answered exactly L requests are admitted from empty; after a reply Q in [1,G] exactly Q, after Q > G at most G, after Q <= 0 at most G; non-trivial = history has a hostile quota (<=0 or >G) or a readiness flip with requests in flight; distinct by FNV-64 of the op trace")
 	known := findings.Open(overlapFinding)
-	stats.Check(t, stats.N(2500, 40000), func(t *rapid.T) {
+	stats.Check(t, stats.N(6000, 40000), func(t *rapid.T) {
 		l := int32(rapid.IntRange(1, 5).Draw(t, "L"))
 		g := l + int32(rapid.IntRange(0, 5).Draw(t, "Gextra"))
 		srv := newServer(false)
@@ -153,8 +153,9 @@ func TestPropAllocateMaxInflight(t *testing.T) {
 		var handles []handle
 		trace := fmt.Sprintf("L=%d G=%d;", l, g)
 		nt := false
-		synced := false   // the remote wrapper exists (a reply was applied at least once)
-		lastQ := int32(0) // last applied quota
+		synced := false      // the remote wrapper exists (a reply was applied at least once)
+		pendingG := int32(0) // global limit of a schema update that no applied answer has followed yet
+		lastQ := int32(0)    // last applied quota
 		sub.Eval()
 		count := func() (loc, rem int) {
 			for _, h := range handles {
@@ -216,6 +217,16 @@ func TestPropAllocateMaxInflight(t *testing.T) {
 				applied := srv.calls > before && !srv.next.Err
 				trace += fmt.Sprintf("reconcile(q=%d,err=%v,applied=%v);", srv.next.Quota, srv.next.Err, applied)
 				if applied {
+					if pendingG > 0 {
+						// the answer (also a repeated one) must now be clamped to the new global limit; requests admitted
+						// under the previous configuration are drained so that the ledger is judged against one limit
+						for _, h := range handles {
+							h.fc.Release()
+						}
+						handles = nil
+						g = pendingG
+						pendingG = 0
+					}
 					synced = true
 					lastQ = srv.next.Quota
 					if lastQ <= 0 || lastQ > g {
@@ -225,6 +236,26 @@ func TestPropAllocateMaxInflight(t *testing.T) {
 				}
 			},
 			"acquire": func(t *rapid.T) { acquire(t) },
+			"schemaUpdate": func(t *rapid.T) {
+				// the configured limits change (a new object, as the controller delivers it); the remote limiter is re-clamped
+				// by the next applied answer, so the new global limit is only demanded from then on; requests admitted
+				// before the update are drained first so that the ledger is judged against one configuration
+				for _, h := range handles {
+					h.fc.Release()
+				}
+				handles = nil
+				nl := int32(rapid.IntRange(1, 5).Draw(t, "newL"))
+				ng := nl + int32(rapid.IntRange(0, 5).Draw(t, "newGextra"))
+				ul.Sync(schemaMIF(proxyv1alpha1.GlobalAllocateLimit, nl, ng))
+				trace += fmt.Sprintf("schema(L=%d,G=%d);", nl, ng)
+				l = nl
+				pendingG = ng
+				if ng > g {
+					g = ng // until the next applied answer either bound may be in force
+				}
+				nt = true
+				sub.Class("schema-update")
+			},
 			"release": func(t *rapid.T) {
 				if len(handles) == 0 {
 					t.Skip("nothing in flight")
@@ -247,6 +278,17 @@ func TestPropAllocateMaxInflight(t *testing.T) {
 					}
 				}
 				trace += fmt.Sprintf("probe=%d;", n)
+				if pendingG > 0 && expectRemote() {
+					// limits changed and no answer was applied since: only the upper bound (older or newer G) is demanded
+					if n > int(g) {
+						t.Fatalf("%d requests admitted from empty exceed the global limit %d\ntrace: %s", n, g, trace)
+					}
+					for _, h := range handles {
+						h.fc.Release()
+					}
+					handles = nil
+					return
+				}
 				if !expectRemote() {
 					if n != int(l) {
 						t.Fatalf("limiter server unknown/not ready/never answered: %d requests admitted from empty, the local limit is %d\ntrace: %s", n, l, trace)
@@ -307,7 +349,7 @@ func windowViolation(calls []tcall, qps, burst int32) string {
 // TestPropAllocateTokenBucket: global-allocate, token bucket.
 func TestPropAllocateTokenBucket(t *testing.T) {
 	sub := stats.NewSub("allocate-token-bucket", "rapid: global-allocate token-bucket schema (local qps/burst <= global qps/burst), scripted replies with qps and burst in {0,1,-1,MinInt32,MaxInt32, around global, below global} or errors, readiness flips, bursts of 1-400 sequential TryAcquire calls between events; oracle: over every window of the run admitted calls <= global burst + global qps*T; over every window in which the server was unknown / not ready / never answered admitted calls <= local burst + local qps*T and the first call from idle is admitted (local limit, not none and not zero); non-trivial = a hostile reply or a readiness flip; distinct by FNV-64 of the op trace")
-	stats.Check(t, stats.N(1200, 15000), func(t *rapid.T) {
+	stats.Check(t, stats.N(2500, 15000), func(t *rapid.T) {
 		lq := int32(rapid.IntRange(1, 50).Draw(t, "localQPS"))
 		lb := lq + int32(rapid.IntRange(0, 10).Draw(t, "localBurstExtra"))
 		gq := lq + int32(rapid.IntRange(0, 100).Draw(t, "globalQPSExtra"))
@@ -413,7 +455,7 @@ func TestPropAllocateTokenBucket(t *testing.T) {
 func TestPropCountMaxInflight(t *testing.T) {
 	sub := stats.NewSub("count-max-in-flight", "rapid state machine on the real UpstreamLimiter in remote mode (global-count, max-in-flight, L <= G <= 10); the answers of the limiter server are delivered synchronously to the wrapper's SetLimit (hook-built AcquireResult): accept/limit with limit in {0,1,-1,-5,MinInt32,MaxInt32,G..G+3,1..G}, error strings, RequestIDTooOld, stale and reordered request times; ops readiness up/down, acquire, release, drain+probe; oracle: admitted-and-unreleased <= G at every admission (G+L under the listed open finding); after an error answer the probe admits between L and G (local limit, not none); not ready => exactly L; non-trivial = a hostile limit, an error answer or a stale request time was delivered; distinct by FNV-64 of the op trace")
 	known := findings.Open(overlapFinding)
-	stats.Check(t, stats.N(2000, 30000), func(t *rapid.T) {
+	stats.Check(t, stats.N(5000, 30000), func(t *rapid.T) {
 		l := int32(rapid.IntRange(1, 5).Draw(t, "L"))
 		g := l + int32(rapid.IntRange(0, 5).Draw(t, "Gextra"))
 		srv := newServer(false)
